@@ -45,17 +45,16 @@ _TREE_HASH = [None]
 
 
 def tree_hash():
-    """content hash of everything a verification result depends on: the repository's Python
-    sources, the engine and the contracts"""
+    """content hash of the engine and the contracts (the repository sources a result depends on
+    are recorded per result, see _task)"""
     if _TREE_HASH[0] is None:
         import hashlib
         h = hashlib.sha256()
-        roots = [os.path.join(repo_root(), 'py_stringsimjoin'), os.path.join(HERE, 'pyvc'),
-                 os.path.join(HERE, 'contracts')]
+        roots = [os.path.join(HERE, 'pyvc'), os.path.join(HERE, 'contracts')]
         for root in roots:
             for d, dirs, files in sorted(os.walk(root)):
                 dirs.sort()
-                if '__pycache__' in d or os.sep + 'tests' in d:
+                if '__pycache__' in d:
                     continue
                 for f in sorted(files):
                     if f.endswith('.py'):
@@ -66,19 +65,32 @@ def tree_hash():
     return _TREE_HASH[0]
 
 
+def _deps_current(deps):
+    import hashlib
+    for pth, sha in (deps or {}).items():
+        try:
+            if hashlib.sha256(open(pth, 'rb').read()).hexdigest() != sha:
+                return False
+        except OSError:
+            return False
+    return bool(deps)
+
+
 def _task(args):
     qual, idx, tmo = args
     cache_dir = os.path.join(HERE, '.cache')
     key = None
     if not os.environ.get('PYVC_NOCACHE'):
         import hashlib
-        key = hashlib.sha256(('%s|%s|%d|%d' % (tree_hash(), qual, idx, tmo)).encode()).hexdigest()[:40]
+        key = hashlib.sha256(('%s|%s|%s|%d|%d' % (tree_hash(), repo_root(), qual, idx, tmo)).encode()).hexdigest()[:40]
         pth = os.path.join(cache_dir, key + '.json')
         if os.path.exists(pth):
             try:
                 out = json.load(open(pth))
-                out['cached'] = True
-                return out
+                # reuse only if every repository module the verification read is byte-identical
+                if _deps_current(out.get('deps')):
+                    out['cached'] = True
+                    return out
             except Exception:
                 pass
     try:
@@ -352,8 +364,8 @@ def check_property(pid, tier='quick', seed=0):
                             samples=samples, notes=notes[:40],
                             reused_results=dict(function_cases=cache_hits, of=len(outs),
                                                 rule='results of fully discharged (function, case) pairs are reused when '
-                                                     'the content hash of /repo sources, pyvc and contracts is unchanged '
-                                                     '(PYVC_NOCACHE=1 disables)'),
+                                                     'pyvc, the contracts and every repository module that verification '
+                                                     'read are byte-identical (PYVC_NOCACHE=1 disables)'),
                             repo=repo_root()),
               assumptions=ASSUMPTIONS + spec.get('assumptions', []),
               wall_s=round(wall, 2), violations=len(violations))
